@@ -209,6 +209,31 @@ def accessor_clash_workspace(rng):
     return ws
 
 
+def namespace_clash_workspace(rng):
+    """one local name imported twice: as a type from one module (`import shape.{type T}`) and as a value from another module
+    that also declares a public type of that name (`import token.{T}`, token has `pub type T { T }`), in either order.
+    In type position the name means shape's type, in value position token's constructor."""
+    tn = rng.choice(["T", "Item", "Res"])
+    shape = f"pub type {tn} {{\n  Circle\n  Square\n}}\n"
+    token = f"pub type {tn} {{\n  {tn}\n  Other\n}}\n\npub type Unrelated {{\n  Unrelated\n}}\n"
+    imps = [f"import shape.{{type {tn}}}", f"import token.{{{tn}}}"]
+    if rng.random() < 0.5:
+        imps.reverse()
+    main = "\n".join(imps) + f"\n\npub fn pick(s: {tn}) -> {tn} {{\n  let v = {tn}\n  let w: {tn} = s\n  w\n}}\n\npub fn make() {{\n  {tn}\n}}\n"
+    files = [("/w/p/src/shape.gleam", shape), ("/w/p/src/token.gleam", token), ("/w/p/src/main.gleam", main), ("/w/p/gleam.toml", 'name = "p"\n')]
+    ws = PlainWs(files)
+    def at(fi, text, needle, k=0, nth=0):
+        i = -1
+        for _ in range(nth + 1):
+            i = text.index(needle, i + 1)
+        return (fi, len(text[:i + k].encode("utf-8")))
+    ws.groups = [
+        (tn, [at(0, shape, f"type {tn}", 5), at(2, main, f"(s: {tn})", 4), at(2, main, f"-> {tn} {{", 3), at(2, main, f"w: {tn} =", 3)]),
+        (tn, [at(1, token, f"  {tn}\n", 2), at(2, main, f"v = {tn}", 4), at(2, main, f"{{\n  {tn}\n}}", 4)]),
+    ]
+    return ws
+
+
 def rebind_workspace(rng):
     """binders that re-use the name of something their own initialiser / call still mentions: `use req <- middleware(req, ctx)`,
     `let x = f(x)`, a clause pattern named like the subject, a lambda parameter named like a captured variable.  The mention on
@@ -365,6 +390,7 @@ def run_c06(res, tier, seed):
     wss += [deep_module_workspace(rrng) for _ in range(6 if tier == "quick" else 60)]
     wss += [lookalike_workspace(rrng) for _ in range(4 if tier == "quick" else 40)]
     wss += [rebind_workspace(rrng) for _ in range(3 if tier == "quick" else 30)]
+    wss += [namespace_clash_workspace(rrng) for _ in range(3 if tier == "quick" else 30)]
     wss += [long_module_workspace(rrng) for _ in range(2 if tier == "quick" else 12)]
     wss += [accessor_clash_workspace(rrng) for _ in range(3 if tier == "quick" else 30)]
     wss += [variant_label_workspace(rrng) for _ in range(6 if tier == "quick" else 60)]
@@ -636,6 +662,7 @@ def run(prop, res, tier, seed):
             for k in range(2 if tier == "quick" else 12):
                 p_project.run_e2e_manifest(res, f"{base}/manifest{k}", random.Random(seed * 1000 + 700 + k), "C08")
                 p_project.run_e2e_same_name(res, f"{base}/same{k}", random.Random(seed * 1000 + 750 + k), "C08")
+                p_project.run_e2e_late_dependency(res, f"{base}/late{k}", random.Random(seed * 1000 + 780 + k), "C08")
         finally:
             shutil.rmtree(base, ignore_errors=True)
     elif prop == "C07":
